@@ -168,6 +168,16 @@ var Ops = []Op{
 	{"Base().Multiply(S2)", func(sh *Shared) []byte { return secp256k1.Base().Multiply(sh.S2).Encode() }},
 	{"Base().Multiply(S3=9)", func(sh *Shared) []byte { return secp256k1.Base().Multiply(sh.S3).Encode() }},
 	{"Base().Add(E1).Double", func(sh *Shared) []byte { return secp256k1.Base().Add(sh.E1).Double().Encode() }},
+	// other receiver kinds: a fresh identity, and an affine point that is not the generator
+	{"NewElement().Add(E1).Subtract(E2)", func(sh *Shared) []byte { return secp256k1.NewElement().Add(sh.E1).Subtract(sh.E2).Encode() }},
+	{"decoded(EB).Multiply(S2)", func(sh *Shared) []byte {
+		e := secp256k1.NewElement()
+		if err := e.Decode(sh.EB); err != nil {
+			return []byte{0xee}
+		}
+
+		return e.Multiply(sh.S2).Encode()
+	}},
 	{"HashToScalar(M,D[:18])", func(sh *Shared) []byte { return secp256k1.HashToScalar(sh.M, sh.D18).Encode() }},
 	{"HashToScalar(M,D[:20])", func(sh *Shared) []byte { return secp256k1.HashToScalar(sh.M, sh.D20).Encode() }},
 	{"HashToScalar(M,Dlong)", func(sh *Shared) []byte { return secp256k1.HashToScalar(sh.M, sh.DLong).Encode() }},
